@@ -1,4 +1,1145 @@
+//! codecx — decides C14 (WebSocket handshake and frame codec) by explicit-state search and
+//! bounded-exhaustive enumeration on the real `actix_http::ws` codec. See DESIGN.md §4 "C14".
+
+mod hs;
+mod maskx;
+mod refm;
+mod rt;
+mod seg;
+
+use std::cell::RefCell;
+use std::collections::{BTreeMap, BTreeSet, HashSet, VecDeque};
+use std::sync::Mutex;
+use std::time::{Duration, Instant};
+
+use actix_http::ws::Codec;
+use bytes::BytesMut;
+use mc_core::bfs::{bfs, Model, StepErr};
+use mc_core::report::{Evidence, Reporter, Violation};
+use serde_json::{json, Value};
+use tokio_util::codec::Decoder;
+
+use refm::*;
+use rt::MsgSpec;
+use seg::*;
+
+const PROP: &str = "C14";
+const KEYS: [[u8; 4]; 4] =
+    [[0x37, 0xfa, 0x21, 0x3d], [0x01, 0x02, 0x04, 0x08], [0xff, 0xff, 0xff, 0xff], [0, 0, 0, 0]];
+const MAX_SIZES: [usize; 4] = [0, 125, 126, 65_536];
+
+#[derive(Default)]
+struct JobOut {
+    part: &'static str,
+    cases: u64,
+    nontrivial_cases: u64,
+    states: u64,
+    transitions: u64,
+    impl_steps: u64,
+    decode_calls: u64,
+    obs: HashSet<u64>,
+    viol: Vec<Violation>,
+    notes: Vec<String>,
+    sample: Option<Value>,
+    capped: bool,
+    exhaustive_cuts: bool,
+}
+
+impl JobOut {
+    fn digest(&self) -> u64 {
+        let mut o: Vec<u64> = self.obs.iter().copied().collect();
+        o.sort();
+        let mut v: Vec<String> =
+            self.viol.iter().map(|v| format!("{}|{}|{}", v.clause, v.signature, v.replay)).collect();
+        v.sort();
+        mc_core::fnv_str(&format!(
+            "{}|{}|{}|{}|{}|{:?}|{:?}",
+            self.cases, self.states, self.transitions, self.impl_steps, self.decode_calls, o, v
+        ))
+    }
+}
+
+type Job = Box<dyn Fn(Option<Instant>) -> JobOut + Send + Sync>;
+
+fn viol(f: &Finding, replay: Value, weight: u64) -> Violation {
+    Violation {
+        property: PROP.into(),
+        clause: f.clause.into(),
+        signature: f.signature.clone(),
+        what: f.what.clone(),
+        replay,
+        weight,
+    }
+}
+
+// ---------------------------------------------------------------------------------------------
+// stream templates
+
+#[derive(Clone, Copy)]
+struct T {
+    op: u8,
+    fin: bool,
+    len: u64,
+    wrongmask: bool,
+    rsv: u8,
+    lenform: u8,
+    present: Option<u64>,
+}
+
+const fn t(op: u8, fin: bool, len: u64) -> T {
+    T { op, fin, len, wrongmask: false, rsv: 0, lenform: 0, present: None }
+}
+impl T {
+    const fn wrongmask(mut self) -> T {
+        self.wrongmask = true;
+        self
+    }
+    const fn rsv(mut self, r: u8) -> T {
+        self.rsv = r;
+        self
+    }
+    const fn form(mut self, f: u8) -> T {
+        self.lenform = f;
+        self
+    }
+    const fn present(mut self, p: u64) -> T {
+        self.present = Some(p);
+        self
+    }
+    fn spec(&self, server: bool, idx: usize) -> FrameSpec {
+        let masked = server ^ self.wrongmask;
+        FrameSpec {
+            fin: self.fin,
+            rsv: self.rsv,
+            opcode: self.op,
+            mask: if masked { Some(KEYS[idx % KEYS.len()]) } else { None },
+            announce: self.len,
+            present: self.present.unwrap_or(self.len),
+            lenform: self.lenform,
+            seed: (idx * 37).wrapping_add(self.len as usize) as u8,
+        }
+    }
+}
+
+fn materialize(label: &str, ts: &[T], server: bool, max_size: usize) -> StreamSpec {
+    StreamSpec {
+        label: label.to_string(),
+        server,
+        max_size,
+        frames: ts.iter().enumerate().map(|(i, t)| t.spec(server, i)).collect(),
+    }
+}
+
+fn templates(thorough: bool) -> Vec<(String, Vec<T>)> {
+    let mut v: Vec<(String, Vec<T>)> = vec![];
+    let mut add = |l: &str, ts: Vec<T>| v.push((l.to_string(), ts));
+    // legal
+    add("legal-mixed", vec![t(OP_TEXT, true, 0), t(OP_TEXT, true, 1), t(OP_BIN, true, 5), t(OP_PING, true, 0), t(OP_PONG, true, 3), t(OP_CLOSE, true, 2)]);
+    add("legal-fragmented", vec![t(OP_TEXT, false, 3), t(OP_PING, true, 2), t(OP_CONT, false, 4), t(OP_CONT, true, 0), t(OP_BIN, true, 2), t(OP_CLOSE, true, 0)]);
+    add("legal-fragmented-2", vec![t(OP_BIN, false, 0), t(OP_CONT, true, 1), t(OP_TEXT, true, 7), t(OP_CLOSE, true, 10), t(OP_CLOSE, true, 1)]);
+    add("legal-boundaries", vec![t(OP_BIN, true, 125), t(OP_TEXT, true, 126), t(OP_PING, true, 125), t(OP_BIN, true, 127)]);
+    add("legal-fragmented-boundaries", vec![t(OP_TEXT, false, 126), t(OP_CONT, false, 125), t(OP_PONG, true, 125), t(OP_CONT, true, 127), t(OP_CLOSE, true, 125)]);
+    // illegal, each class after a legal prefix and before a legal suffix
+    add("ill-wrongmask", vec![t(OP_TEXT, true, 2), t(OP_TEXT, true, 3).wrongmask(), t(OP_TEXT, true, 1)]);
+    add("ill-wrongmask-first", vec![t(OP_BIN, true, 0).wrongmask(), t(OP_TEXT, true, 1)]);
+    add("ill-wrongmask-ping126", vec![t(OP_PING, true, 126).wrongmask()]);
+    add("ill-reserved-3", vec![t(OP_PING, true, 1), t(3, true, 2), t(OP_TEXT, true, 1)]);
+    add("ill-reserved-11", vec![t(11, true, 0), t(OP_TEXT, true, 1)]);
+    add("ill-reserved-7-nofin", vec![t(OP_TEXT, true, 1), t(7, false, 1)]);
+    add("ill-reserved-15", vec![t(15, true, 126)]);
+    add("ill-ping-fragmented", vec![t(OP_TEXT, true, 1), t(OP_PING, false, 2), t(OP_TEXT, true, 1)]);
+    add("ill-close-fragmented", vec![t(OP_CLOSE, false, 2), t(OP_TEXT, true, 1)]);
+    add("ill-pong-fragmented-infrag", vec![t(OP_TEXT, false, 1), t(OP_PONG, false, 0), t(OP_CONT, true, 1)]);
+    add("ill-ping-overlong", vec![t(OP_TEXT, true, 1), t(OP_PING, true, 126), t(OP_TEXT, true, 1)]);
+    add("ill-pong-overlong", vec![t(OP_PONG, true, 127), t(OP_TEXT, true, 1)]);
+    add("ill-close-overlong", vec![t(OP_TEXT, true, 1), t(OP_CLOSE, true, 126), t(OP_TEXT, true, 1)]);
+    add("ill-close-overlong-nofin", vec![t(OP_CLOSE, false, 130), t(OP_TEXT, true, 1)]);
+    add("ill-continue-without-start", vec![t(OP_TEXT, true, 1), t(OP_CONT, false, 2), t(OP_TEXT, true, 1)]);
+    add("ill-last-without-start", vec![t(OP_CONT, true, 2), t(OP_TEXT, true, 1)]);
+    add("ill-continue-after-last", vec![t(OP_BIN, false, 1), t(OP_CONT, true, 1), t(OP_CONT, false, 1), t(OP_TEXT, true, 1)]);
+    add("ill-start-inside-fragmented", vec![t(OP_TEXT, false, 1), t(OP_BIN, false, 1), t(OP_CONT, true, 1)]);
+    add("ill-start-inside-fragmented-2", vec![t(OP_BIN, false, 2), t(OP_CONT, false, 1), t(OP_TEXT, false, 0), t(OP_CONT, true, 1)]);
+    // not covered by the statement (either outcome fine, must be segmentation-independent)
+    add("unspec-data-inside-fragmented", vec![t(OP_TEXT, false, 2), t(OP_TEXT, true, 3), t(OP_CONT, true, 1), t(OP_BIN, true, 1)]);
+    add("unspec-rsv", vec![t(OP_TEXT, true, 2).rsv(4), t(OP_BIN, true, 1).rsv(1), t(OP_TEXT, true, 1)]);
+    add("unspec-nonminimal", vec![t(OP_TEXT, true, 5).form(1), t(OP_BIN, true, 5).form(2), t(OP_BIN, true, 200).form(2), t(OP_TEXT, true, 0).form(1)]);
+    // announced only (the stream ends inside the payload)
+    add("announce-2^32", vec![t(OP_TEXT, true, 1), t(OP_BIN, true, 1 << 32).present(5)]);
+    add("announce-2^63", vec![t(OP_BIN, true, 1 << 63).present(0)]);
+    add("announce-u64max", vec![t(OP_TEXT, true, 1), t(OP_BIN, true, u64::MAX).present(3)]);
+    add("announce-ping-65536", vec![t(OP_PING, true, 65_536).present(10)]);
+    add("announce-65537-partial", vec![t(OP_BIN, false, 65_537).present(300)]);
+    add("announce-127-partial", vec![t(OP_TEXT, true, 127).present(20)]);
+    // one frame of every kind × boundary length between two small frames
+    let lens: &[u64] = if thorough { &[0, 1, 2, 124, 125, 126, 127, 128] } else { &[0, 1, 125, 126] };
+    let ops: Vec<u8> = if thorough { (0u8..16).collect() } else { vec![0, 1, 2, 8, 9, 10, 3, 11] };
+    for &op in &ops {
+        for &l in lens {
+            for fin in [true, false] {
+                if !thorough && !fin && (op == 3 || op == 11) {
+                    continue;
+                }
+                add(
+                    &format!("single-op{op}-fin{}-len{l}", fin as u8),
+                    vec![t(OP_TEXT, true, 1), t(op, fin, l), t(OP_TEXT, true, 1)],
+                );
+                if op == 0 {
+                    add(
+                        &format!("infrag-op{op}-fin{}-len{l}", fin as u8),
+                        vec![t(OP_BIN, false, 1), t(op, fin, l), t(OP_TEXT, true, 1)],
+                    );
+                }
+            }
+        }
+    }
+    v
+}
+
+fn long_templates(thorough: bool) -> Vec<(String, Vec<T>)> {
+    let mut v = vec![
+        ("long-binary-65535".to_string(), vec![t(OP_BIN, true, 65_535), t(OP_TEXT, true, 1)]),
+        ("long-text-65536".to_string(), vec![t(OP_TEXT, true, 65_536), t(OP_PING, true, 3)]),
+        ("long-fragmented".to_string(), vec![t(OP_BIN, false, 65_536), t(OP_CONT, true, 65_535)]),
+        ("long-oversize-65537".to_string(), vec![t(OP_BIN, true, 65_537), t(OP_TEXT, true, 1)]),
+    ];
+    if thorough {
+        v.push(("long-ping-65535".to_string(), vec![t(OP_PING, true, 65_535), t(OP_TEXT, true, 1)]));
+        v.push(("long-close-65536".to_string(), vec![t(OP_CLOSE, true, 65_536), t(OP_TEXT, true, 1)]));
+        v.push(("long-nonminimal-64".to_string(), vec![t(OP_BIN, true, 65_535).form(2), t(OP_TEXT, true, 1)]));
+        v.push(("long-three".to_string(), vec![t(OP_TEXT, false, 65_535), t(OP_CONT, false, 65_536), t(OP_CONT, true, 65_535)]));
+    }
+    v
+}
+
+// ---------------------------------------------------------------------------------------------
+// (2) segmentation jobs
+
+fn seg_bfs_job(label: String, ts: Vec<T>, server: bool, max_size: usize, full_limit: usize, stride: usize) -> Job {
+    Box::new(move |deadline| {
+        let s = Stream::new(materialize(&label, &ts, server, max_size));
+        let (cuts, full) = cut_set(&s, full_limit, stride);
+        let aligns: Vec<u8> = if server { vec![0, 1, 2, 3] } else { vec![0, 3] };
+        let ncuts = cuts.len();
+        let r = seg_bfs(&s, cuts, aligns.clone(), deadline);
+        let mut o = JobOut { part: "seg-bfs", ..Default::default() };
+        o.cases = r.transitions;
+        o.nontrivial_cases = r.obs.len() as u64;
+        o.states = r.states;
+        o.transitions = r.transitions;
+        o.impl_steps = r.transitions;
+        o.decode_calls = r.decode_calls;
+        o.capped = r.capped;
+        o.exhaustive_cuts = full;
+        o.obs = r.obs;
+        for (f, path) in &r.findings {
+            o.viol.push(viol(f, replay_value(&s, path, true), s.bytes.len() as u64 * 1000 + path.len() as u64));
+        }
+        o.sample = Some(json!({
+            "part": "seg-bfs", "stream": label, "role": if server {"server"} else {"client"}, "max_size": max_size,
+            "stream_len": s.bytes.len(), "wire_head": mc_core::show_short(&s.bytes, 40), "frames": s.spec.frames.iter().map(|f| f.class()).collect::<Vec<_>>(),
+            "expected": s.infos.iter().map(|i| match &i.exp { Exp::Deliver(o) => o.short(), e => format!("{e:?}").chars().take(60).collect() }).collect::<Vec<_>>(),
+            "cut_positions": ncuts, "every_offset_is_a_cut": full, "alignments": aligns,
+            "states": r.states, "transitions": r.transitions, "terminal_states": r.terminal_states, "max_depth": r.max_depth,
+        }));
+        o
+    })
+}
+
+/// every k-subset of `cuts` (without the final n) as a segmentation
+fn for_each_subset(cuts: &[usize], k: usize, n: usize, f: &mut dyn FnMut(&[(usize, u8)])) {
+    fn rec(cuts: &[usize], k: usize, start: usize, cur: &mut Vec<(usize, u8)>, n: usize, f: &mut dyn FnMut(&[(usize, u8)])) {
+        if k == 0 {
+            cur.push((n, 0));
+            f(cur);
+            cur.pop();
+            return;
+        }
+        for i in start..cuts.len() {
+            cur.push((cuts[i], 0));
+            rec(cuts, k - 1, i + 1, cur, n, f);
+            cur.pop();
+        }
+    }
+    rec(cuts, k, 0, &mut vec![], n, f);
+}
+
+fn seg_twin_job(label: String, ts: Vec<T>, server: bool, max_size: usize, full_limit: usize, pair_limit: usize, triple_limit: usize) -> Job {
+    Box::new(move |deadline| {
+        let s = Stream::new(materialize(&label, &ts, server, max_size));
+        let n = s.bytes.len();
+        let (cuts, full) = cut_set(&s, full_limit, 0);
+        let inner: Vec<usize> = cuts.iter().copied().filter(|&c| c < n).collect();
+        let mut o = JobOut { part: "seg-unmerged", exhaustive_cuts: full, ..Default::default() };
+        let (wf, whole) = run_seg(&s, &[(n, 0)], false, false);
+        let mut finals: BTreeMap<String, u64> = BTreeMap::new();
+        let mut one = |sg: &[(usize, u8)], o: &mut JobOut| {
+            let (fs, sum) = run_seg(&s, sg, false, false);
+            o.cases += 1;
+            o.impl_steps += sum.feeds;
+            o.decode_calls += sum.decode_calls;
+            if sum.cut_inside_frame {
+                o.nontrivial_cases += 1;
+            }
+            let fin = format!("{}|{:?}", sum.emitted, sum.err);
+            *finals.entry(fin).or_default() += 1;
+            for f in &fs {
+                if !o.viol.iter().any(|v| v.clause == f.clause && v.signature == f.signature) {
+                    o.viol.push(viol(f, replay_value(&s, sg, false), n as u64 * 1000 + sg.len() as u64));
+                }
+            }
+            if fs.is_empty() && (sum.emitted != whole.emitted || sum.err != whole.err) {
+                let f = Finding {
+                    clause: "segmentation",
+                    signature: "final-outcome-differs-from-whole-buffer-decode".into(),
+                    what: format!(
+                        "whole-buffer decode gives (frames={}, err={:?}) but segmentation {:?} gives (frames={}, err={:?})",
+                        whole.emitted, whole.err, sg.iter().map(|x| x.0).collect::<Vec<_>>(), sum.emitted, sum.err
+                    ),
+                };
+                if !o.viol.iter().any(|v| v.signature == f.signature) {
+                    o.viol.push(viol(&f, replay_value(&s, sg, false), n as u64 * 1000 + sg.len() as u64));
+                }
+            }
+        };
+        let _ = wf;
+        one(&[(n, 0)], &mut o);
+        let all1: Vec<(usize, u8)> = (1..=n).map(|c| (c, 0)).collect();
+        one(&all1, &mut o);
+        for_each_subset(&inner, 1, n, &mut |sg| one(sg, &mut o));
+        let mut depth = 1;
+        if n <= pair_limit {
+            for_each_subset(&inner, 2, n, &mut |sg| one(sg, &mut o));
+            depth = 2;
+        }
+        if n <= triple_limit && deadline.map(|d| Instant::now() < d).unwrap_or(true) {
+            for_each_subset(&inner, 3, n, &mut |sg| one(sg, &mut o));
+            depth = 3;
+        }
+        // canonical observation: the final outcome of the stream (all segmentations collapse to one)
+        for k in finals.keys() {
+            o.obs.insert(mc_core::fnv_str(&format!("twin|{label}|{server}|{max_size}|{k}")));
+        }
+        o.sample = Some(json!({
+            "part": "seg-unmerged", "stream": label, "role": if server {"server"} else {"client"}, "max_size": max_size,
+            "stream_len": n, "segmentations_run": o.cases, "cut_subsets_up_to": depth,
+            "distinct_final_outcomes": finals.keys().collect::<Vec<_>>(),
+        }));
+        o
+    })
+}
+
+// ---------------------------------------------------------------------------------------------
+// (3) strictness: frame-sequence state machine
+
+#[derive(Clone)]
+struct StrictState {
+    codec: Codec,
+    frag: bool,
+    dead: bool,
+}
+
+struct StrictModel {
+    server: bool,
+    max_size: usize,
+    alphabet: Vec<FrameSpec>,
+    findings: RefCell<Vec<(Finding, Vec<usize>)>>,
+    obs: RefCell<HashSet<u64>>,
+    outcomes: RefCell<BTreeMap<String, u64>>,
+    notes: RefCell<BTreeSet<String>>,
+}
+
+impl Model for StrictModel {
+    type State = StrictState;
+    type Key = (String, bool, bool);
+    type Action = usize;
+    fn key(&self, s: &StrictState) -> Self::Key {
+        (format!("{:?}", s.codec), s.frag, s.dead)
+    }
+    fn actions(&self, s: &StrictState) -> Vec<usize> {
+        if s.dead {
+            vec![]
+        } else {
+            (0..self.alphabet.len()).collect()
+        }
+    }
+    fn step(&self, s: &StrictState, a: &usize, path: &[usize]) -> Result<Option<StrictState>, StepErr> {
+        let f = &self.alphabet[*a];
+        let mut codec = s.codec.clone();
+        let mut buf = BytesMut::from(&f.wire()[..]);
+        let (exp, nfrag) = ref_step(self.server, self.max_size, s.frag, f);
+        let mut out = vec![];
+        let mut dead = false;
+        let mut frag = s.frag;
+        let r = quiet_catch(|| codec.decode(&mut buf));
+        let outcome;
+        match r {
+            Err(_) => {
+                out.push(Finding { clause: "panic", signature: "decode-panicked".into(), what: format!("decode panicked on {}", f.class()) });
+                dead = true;
+                outcome = "panic".to_string();
+            }
+            Ok(Err(e)) => {
+                let d = format!("{e:?}");
+                judge(&exp, Got::Err(&d), f, self.max_size, &mut out);
+                dead = true;
+                outcome = format!("Err:{}", err_kind(&d));
+            }
+            Ok(Ok(Some(fr))) => {
+                let o = obs_of(&fr);
+                judge(&exp, Got::Frame(&o), f, self.max_size, &mut out);
+                if !buf.is_empty() {
+                    out.push(Finding { clause: "segmentation", signature: "consumed-length-wrong".into(), what: format!("{} left {} bytes", f.class(), buf.len()) });
+                }
+                if !out.is_empty() {
+                    dead = true;
+                }
+                if !matches!(exp, Exp::RejectOrCloseNone(_)) {
+                    frag = nfrag;
+                }
+                outcome = format!("Ok:{}", o.kind());
+            }
+            Ok(Ok(None)) => {
+                let oversize = matches!(exp, Exp::Reject(Why::Oversize));
+                out.push(Finding {
+                    clause: "segmentation",
+                    signature: format!("complete-frame-not-decoded:{}", if oversize { "oversize".into() } else { f.class() }),
+                    what: format!("complete frame {} gave Ok(None)", f.class()),
+                });
+                dead = true;
+                outcome = "None".to_string();
+            }
+        }
+        match &exp {
+            Exp::Either(_, why) => {
+                self.notes.borrow_mut().insert(format!("statement-neutral shape '{why}': decoder answered {}", outcome.split(':').next().unwrap_or("")));
+            }
+            Exp::RejectOrCloseNone(_) => {
+                self.notes.borrow_mut().insert(format!("over-long Close frame: decoder answered {outcome}"));
+            }
+            _ => {}
+        }
+        *self.outcomes.borrow_mut().entry(outcome.clone()).or_default() += 1;
+        self.obs.borrow_mut().insert(mc_core::fnv_str(&format!(
+            "strict|{}|{}|{}|{:?}|{outcome}",
+            self.server, self.max_size, s.frag, f
+        )));
+        if !out.is_empty() {
+            let mut p = path.to_vec();
+            p.push(*a);
+            let mut fs = self.findings.borrow_mut();
+            for f in out {
+                if !fs.iter().any(|(g, _)| g.clause == f.clause && g.signature == f.signature) {
+                    fs.push((f, p.clone()));
+                }
+            }
+        }
+        Ok(Some(StrictState { codec, frag, dead }))
+    }
+}
+
+fn strict_alphabet(server: bool, thorough: bool) -> Vec<FrameSpec> {
+    let ops: Vec<u8> = if thorough { (0u8..16).collect() } else { vec![0, 1, 2, 8, 9, 10, 3, 7, 11, 15] };
+    let lens: &[u64] = if thorough { &[0, 1, 2, 125, 126, 127, 65_535, 65_536, 65_537] } else { &[0, 1, 125, 126] };
+    let mut v = vec![];
+    let mut i = 0usize;
+    for &op in &ops {
+        for fin in [true, false] {
+            for wrong in [false, true] {
+                for &l in lens {
+                    let mut tt = t(op, fin, l);
+                    tt.wrongmask = wrong;
+                    v.push(tt.spec(server, i));
+                    i += 1;
+                }
+            }
+        }
+    }
+    // statement-neutral shapes
+    v.push(t(OP_TEXT, true, 1).rsv(4).spec(server, i));
+    v.push(t(OP_BIN, true, 1).form(1).spec(server, i + 1));
+    v.push(t(OP_BIN, true, 1).form(2).spec(server, i + 2));
+    v
+}
+
+fn seq_stream(label: &str, server: bool, max_size: usize, frames: Vec<FrameSpec>) -> (Stream, Vec<(usize, u8)>) {
+    let s = Stream::new(StreamSpec { label: label.into(), server, max_size, frames });
+    let mut sg = vec![];
+    let mut pos = 0;
+    for f in &s.spec.frames {
+        pos += f.header().len() + f.present as usize;
+        sg.push((pos, 0u8));
+    }
+    (s, sg)
+}
+
+fn strict_bfs_job(server: bool, max_size: usize, thorough: bool) -> Job {
+    Box::new(move |_| {
+        let m = StrictModel {
+            server,
+            max_size,
+            alphabet: strict_alphabet(server, thorough),
+            findings: RefCell::new(vec![]),
+            obs: RefCell::new(HashSet::new()),
+            outcomes: RefCell::new(BTreeMap::new()),
+            notes: RefCell::new(BTreeSet::new()),
+        };
+        let init = StrictState { codec: mk_codec(server, max_size), frag: false, dead: false };
+        let (st, v) = bfs(&m, init, u64::MAX, u32::MAX, None);
+        assert!(v.is_empty());
+        let mut o = JobOut { part: "strict-bfs", ..Default::default() };
+        o.cases = st.transitions;
+        o.states = st.states;
+        o.transitions = st.transitions;
+        o.impl_steps = st.transitions;
+        o.decode_calls = st.transitions;
+        o.obs = m.obs.take();
+        o.nontrivial_cases = o.obs.len() as u64;
+        o.notes = m.notes.borrow().iter().cloned().collect();
+        for (f, path) in m.findings.take() {
+            let frames: Vec<FrameSpec> = path.iter().map(|&i| m.alphabet[i].clone()).collect();
+            let (s, sg) = seq_stream("strict-bfs-path", server, max_size, frames);
+            o.viol.push(viol(&f, replay_value(&s, &sg, false), s.bytes.len() as u64 * 1000 + path.len() as u64));
+        }
+        o.sample = Some(json!({
+            "part": "strict-bfs", "role": if server {"server"} else {"client"}, "max_size": max_size,
+            "alphabet_frames": m.alphabet.len(), "states": st.states, "transitions": st.transitions,
+            "fixpoint_reached": !st.capped, "outcomes": *m.outcomes.borrow(),
+            "example_actions": m.alphabet.iter().take(3).map(|f| serde_json::to_value(f).unwrap()).collect::<Vec<_>>(),
+        }));
+        o
+    })
+}
+
+fn strict_seq_alphabet(server: bool) -> Vec<FrameSpec> {
+    let ts = [
+        t(OP_TEXT, true, 1),
+        t(OP_TEXT, false, 1),
+        t(OP_BIN, false, 0),
+        t(OP_CONT, false, 1),
+        t(OP_CONT, true, 1),
+        t(OP_PING, true, 1),
+        t(OP_PING, false, 0),
+        t(OP_CLOSE, true, 2),
+        t(3, true, 0),
+        t(OP_TEXT, true, 1).wrongmask(),
+        t(OP_PING, true, 126),
+        t(OP_CLOSE, true, 126),
+    ];
+    ts.iter().enumerate().map(|(i, x)| x.spec(server, i)).collect()
+}
+
+/// un-merged twin of the strictness search: all frame sequences of length <= depth, each run
+/// from a fresh codec through the stream oracle (fed frame by frame, and as one buffer)
+fn strict_seq_job(server: bool, max_size: usize, depth: usize, first: usize) -> Job {
+    Box::new(move |_| {
+        let alpha = strict_seq_alphabet(server);
+        let mut o = JobOut { part: "strict-unmerged", ..Default::default() };
+        let mut idx = vec![first];
+        let mut outcomes: BTreeSet<String> = BTreeSet::new();
+        // odometer over sequences starting with `first`
+        loop {
+            let frames: Vec<FrameSpec> = idx.iter().map(|&i| alpha[i].clone()).collect();
+            let (s, sg) = seq_stream("strict-seq", server, max_size, frames);
+            for whole in [false, true] {
+                let sgx: Vec<(usize, u8)> = if whole { vec![(s.bytes.len(), 0)] } else { sg.clone() };
+                let (fs, sum) = run_seg(&s, &sgx, false, false);
+                o.cases += 1;
+                o.impl_steps += sum.feeds;
+                o.decode_calls += sum.decode_calls;
+                outcomes.insert(format!("{:?}|{}|{:?}", idx, sum.emitted, sum.err));
+                for f in &fs {
+                    if !o.viol.iter().any(|v| v.clause == f.clause && v.signature == f.signature) {
+                        o.viol.push(viol(f, replay_value(&s, &sgx, false), s.bytes.len() as u64 * 1000 + sgx.len() as u64));
+                    }
+                }
+            }
+            // next
+            if idx.len() < depth {
+                idx.push(0);
+            } else {
+                loop {
+                    let l = idx.len();
+                    if l == 1 {
+                        break;
+                    }
+                    if idx[l - 1] + 1 < alpha.len() {
+                        idx[l - 1] += 1;
+                        break;
+                    }
+                    idx.pop();
+                }
+                if idx.len() == 1 {
+                    break;
+                }
+            }
+        }
+        for k in &outcomes {
+            o.obs.insert(mc_core::fnv_str(&format!("sseq|{server}|{max_size}|{k}")));
+        }
+        o.nontrivial_cases = outcomes.len() as u64;
+        if first == 1 {
+            o.sample = Some(json!({
+                "part": "strict-unmerged", "role": if server {"server"} else {"client"}, "max_size": max_size,
+                "first_frame": alpha[first].class(), "depth": depth, "sequences_run": o.cases,
+                "alphabet": alpha.iter().map(|f| f.class() + if f.mask.is_some() == server { "" } else { ".wrongmask" }).collect::<Vec<_>>(),
+            }));
+        }
+        o
+    })
+}
+
+// ---------------------------------------------------------------------------------------------
+// (1) round trip
+
+fn rt_alphabet(thorough: bool) -> Vec<MsgSpec> {
+    let lens = [0usize, 1, 125, 126, 127, 65_535, 65_536];
+    let mut v = vec![];
+    for &l in &lens {
+        v.push(MsgSpec::Text(l));
+        v.push(MsgSpec::Binary(l));
+        v.push(MsgSpec::FirstText(l));
+        v.push(MsgSpec::FirstBinary(l));
+        v.push(MsgSpec::Continue(l));
+        v.push(MsgSpec::Last(l));
+    }
+    for l in [0usize, 1, 2, 124, 125] {
+        v.push(MsgSpec::Ping(l));
+        v.push(MsgSpec::Pong(l));
+    }
+    v.push(MsgSpec::CloseNone);
+    for code in [1000u16, 1001, 1002, 1003, 1006, 1007, 1008, 1009, 1010, 1011, 1012, 1013, 1015, 3000, 4999, 0, 65_535] {
+        v.push(MsgSpec::Close { code, desc: None });
+    }
+    for d in [1usize, 2, 122, 123] {
+        v.push(MsgSpec::Close { code: 1000, desc: Some(d) });
+        v.push(MsgSpec::Close { code: 4000, desc: Some(d) });
+    }
+    if thorough {
+        for l in [2usize, 3, 4, 5, 7, 8, 9, 63, 64, 65, 124, 128, 255, 256, 257, 1023, 4096, 65_534, 65_537, 70_000] {
+            if l <= 65_536 {
+                v.push(MsgSpec::Text(l));
+                v.push(MsgSpec::Last(l));
+            }
+            v.push(MsgSpec::Binary(l));
+        }
+        for l in 3..124usize {
+            v.push(MsgSpec::Ping(l));
+        }
+    }
+    v.push(MsgSpec::Nop);
+    v
+}
+
+fn rt_job(c2s: bool, dec_max: Option<usize>, thorough: bool) -> Job {
+    Box::new(move |_| {
+        let mut alpha = rt_alphabet(thorough);
+        if let Some(mx) = dec_max {
+            // decoder limit exactly at / just below the payload: lengths around mx only
+            alpha = vec![MsgSpec::Binary(mx), MsgSpec::Text(mx), MsgSpec::Binary(mx + 1), MsgSpec::FirstText(mx), MsgSpec::Last(mx), MsgSpec::Last(mx + 1), MsgSpec::Ping(mx.min(125)), MsgSpec::Nop];
+        }
+        let reps = if c2s { if thorough { 4 } else { 2 } } else { 1 };
+        let r = rt::rt_bfs(c2s, dec_max, alpha.clone(), reps);
+        let mut o = JobOut { part: "roundtrip", ..Default::default() };
+        o.cases = r.impl_steps;
+        o.states = r.states;
+        o.transitions = r.transitions;
+        o.impl_steps = r.impl_steps;
+        o.decode_calls = r.impl_steps;
+        o.nontrivial_cases = r.obs.len() as u64;
+        o.obs = r.obs;
+        o.notes = r.notes;
+        for (f, path) in &r.findings {
+            let w: usize = path.len() * 1000
+                + match path.last() {
+                    Some(MsgSpec::Text(n)) | Some(MsgSpec::Binary(n)) | Some(MsgSpec::Ping(n)) | Some(MsgSpec::Pong(n))
+                    | Some(MsgSpec::FirstText(n)) | Some(MsgSpec::FirstBinary(n)) | Some(MsgSpec::Continue(n)) | Some(MsgSpec::Last(n)) => *n,
+                    _ => 0,
+                };
+            o.viol.push(viol(f, rt::replay_value(c2s, dec_max, path), w as u64));
+        }
+        o.sample = Some(json!({
+            "part": "roundtrip", "direction": if c2s {"client->server"} else {"server->client"}, "decoder_max_size": dec_max,
+            "alphabet_messages": alpha.len(), "states": r.states, "transitions": r.transitions, "encode_decode_executions": r.impl_steps,
+            "example_messages": alpha.iter().take(4).map(|m| format!("{m:?}")).collect::<Vec<_>>(),
+        }));
+        o
+    })
+}
+
+// ---------------------------------------------------------------------------------------------
+// (5) masking, (6) handshake
+
+fn mask_job(thorough: bool) -> Job {
+    Box::new(move |_| {
+        let mut o = JobOut { part: "mask", ..Default::default() };
+        let mut aligns_seen: BTreeSet<usize> = BTreeSet::new();
+        let mut dec = |len: usize, key: [u8; 4], off: usize, form: u8, o: &mut JobOut| {
+            let (fs, al) = maskx::mask_decode_case(len, key, off, form, false);
+            aligns_seen.insert(al);
+            o.cases += 1;
+            o.impl_steps += 1;
+            o.decode_calls += 1;
+            if len > 0 {
+                o.obs.insert(mc_core::fnv_str(&format!("maskd|{len}|{key:?}|{al}|{form}|{}", fs.is_empty())));
+            }
+            for f in &fs {
+                if !o.viol.iter().any(|v| v.signature == f.signature) {
+                    o.viol.push(viol(f, maskx::replay_decode(len, key, off, form), (len * 100 + off) as u64));
+                }
+            }
+        };
+        for len in 0..=40usize {
+            for key in KEYS {
+                for off in 0..8usize {
+                    dec(len, key, off, 0, &mut o);
+                }
+            }
+        }
+        for len in [125usize, 126, 127, 128, 129, 130, 131, 65_535, 65_536, 65_537] {
+            for key in KEYS {
+                for off in 0..4usize {
+                    dec(len, key, off, 0, &mut o);
+                }
+            }
+        }
+        for form in [1u8, 2] {
+            for len in 0..=9usize {
+                for off in 0..4usize {
+                    dec(len, KEYS[1], off, form, &mut o);
+                }
+            }
+        }
+        if thorough {
+            // every value of every key byte (XOR is bit-parallel; word path has no cross-byte carry)
+            for pos in 0..4usize {
+                for val in 0..=255u8 {
+                    let mut key = [0x10u8, 0x20, 0x40, 0x80];
+                    key[pos] = val;
+                    for len in 0..=13usize {
+                        for off in 0..4usize {
+                            dec(len, key, off, 0, &mut o);
+                        }
+                    }
+                }
+            }
+            for len in 41..=300usize {
+                for off in 0..4usize {
+                    dec(len, KEYS[0], off, 0, &mut o);
+                }
+            }
+        }
+        let mut enc_aligns: BTreeSet<usize> = BTreeSet::new();
+        let enc_lens: Vec<usize> = (0..=40).chain([125usize, 126, 127, 65_535, 65_536]).collect();
+        for &len in &enc_lens {
+            for off in 0..8usize {
+                for _rep in 0..(if thorough { 8 } else { 2 }) {
+                    let (fs, al) = maskx::mask_encode_case(len, off, false);
+                    enc_aligns.insert(al);
+                    o.cases += 1;
+                    o.impl_steps += 1;
+                    if len > 0 {
+                        o.obs.insert(mc_core::fnv_str(&format!("maske|{len}|{al}|{}", fs.is_empty())));
+                    }
+                    for f in &fs {
+                        if !o.viol.iter().any(|v| v.signature == f.signature) {
+                            o.viol.push(viol(f, maskx::replay_encode(len, off), (len * 100 + off) as u64));
+                        }
+                    }
+                }
+            }
+        }
+        o.nontrivial_cases = o.obs.len() as u64;
+        if aligns_seen.len() != 4 || enc_aligns.len() != 4 {
+            o.notes.push(format!("MACHINERY: payload alignments reached decode {aligns_seen:?} encode {enc_aligns:?}, expected all of 0..4"));
+        }
+        o.sample = Some(json!({
+            "part": "mask", "cases": o.cases, "payload_start_alignments_mod4_decode": aligns_seen, "payload_start_alignments_mod4_encode": enc_aligns,
+            "example": {"len": 7, "key": KEYS[0], "frame_offset": 3, "wire": mc_core::show(&FrameSpec::new(OP_BIN, true, Some(KEYS[0]), 7, 24).wire())},
+        }));
+        o
+    })
+}
+
+fn hs_cases(thorough: bool) -> Vec<hs::HsCase> {
+    let s = |x: &str| Some(x.to_string());
+    let methods = if thorough { vec!["GET", "POST", "HEAD", "PUT", "OPTIONS", "get"] } else { vec!["GET", "POST"] };
+    let mut upgrades = vec![None, s("websocket"), s("WebSocket"), s("other")];
+    let mut conns = vec![None, s("upgrade"), s("Upgrade"), s("keep-alive, Upgrade"), s("close")];
+    let mut vers = vec![None, s("7"), s("8"), s("13"), s("12")];
+    let mut keys = vec![None, s("dGhlIHNhbXBsZSBub25jZQ=="), s("x3JJHMbDL1EzLkh9GBhXDw=="), s("AQIDBAUGBwgJCgsMDQ4PEC==")];
+    if thorough {
+        upgrades.extend([s("WEBSOCKET"), s("h2c, websocket"), s("web socket"), s("")]);
+        conns.extend([s("UPGRADE"), s("keep-alive"), s("")]);
+        vers.extend([s("14"), s("0"), s("13, 8"), s(" 13"), s("013"), s("")]);
+        keys.extend([s(""), s("a")]);
+    }
+    let mut v = vec![];
+    for m in &methods {
+        for u in &upgrades {
+            for c in &conns {
+                for ve in &vers {
+                    for k in &keys {
+                        v.push(hs::HsCase { method: m.to_string(), upgrade: u.clone(), connection: c.clone(), version: ve.clone(), key: k.clone() });
+                    }
+                }
+            }
+        }
+    }
+    // accept key over key strings of every length across the SHA-1 block boundaries
+    const B64: &[u8] = b"ABCDEFGHIJKLMNOPQRSTUVWXYZabcdefghijklmnopqrstuvwxyz0123456789+/=";
+    let maxlen = if thorough { 200 } else { 100 };
+    let variants = if thorough { 8 } else { 2 };
+    for l in 0..=maxlen {
+        for var in 0..variants {
+            let k: String = (0..l).map(|i| B64[(i * 7 + var * 13 + l) % B64.len()] as char).collect();
+            v.push(hs::HsCase { method: "GET".into(), upgrade: s("websocket"), connection: s("Upgrade"), version: s("13"), key: Some(k) });
+        }
+    }
+    v
+}
+
+fn hs_job(thorough: bool) -> Job {
+    Box::new(move |_| {
+        let mut o = JobOut { part: "handshake", ..Default::default() };
+        let cases = hs_cases(thorough);
+        let mut classes: BTreeMap<String, u64> = BTreeMap::new();
+        for c in &cases {
+            let (fs, outcome) = hs::run_case(c, false);
+            o.cases += 1;
+            o.impl_steps += 1;
+            let cls = if outcome.starts_with("accept") { "accept".to_string() } else { outcome.clone() };
+            *classes.entry(cls).or_default() += 1;
+            o.obs.insert(mc_core::fnv_str(&format!("hs|{c:?}|{outcome}")));
+            for f in &fs {
+                if !o.viol.iter().any(|v| v.signature == f.signature) {
+                    o.viol.push(viol(f, hs::replay_value(c), c.key.as_ref().map(|k| k.len()).unwrap_or(0) as u64));
+                }
+            }
+        }
+        o.nontrivial_cases = o.obs.len() as u64;
+        o.sample = Some(json!({
+            "part": "handshake", "cases": o.cases, "outcome_classes": classes,
+            "example": serde_json::to_value(&cases[cases.len() / 3]).unwrap(),
+            "rfc_sample": {"key": "dGhlIHNhbXBsZSBub25jZQ==", "accept": accept_key(b"dGhlIHNhbXBsZSBub25jZQ==")},
+        }));
+        o
+    })
+}
+
+// ---------------------------------------------------------------------------------------------
+
+fn self_test() {
+    use base64::Engine as _;
+    use sha1::Digest as _;
+    let hex = |b: &[u8]| b.iter().map(|x| format!("{x:02x}")).collect::<String>();
+    let mut bad = vec![];
+    if hex(&sha1(b"abc")) != "a9993e364706816aba3e25717850c26c9cd0d89d" {
+        bad.push("sha1(abc)".to_string());
+    }
+    if hex(&sha1(b"")) != "da39a3ee5e6b4b0d3255bfef95601890afd80709" {
+        bad.push("sha1(empty)".to_string());
+    }
+    if accept_key(b"dGhlIHNhbXBsZSBub25jZQ==") != "s3pPLMBiTxaQ9kYGzzhZRbK+xOo=" {
+        bad.push("accept key of the RFC 6455 sample".to_string());
+    }
+    for l in 0..200usize {
+        let m: Vec<u8> = (0..l).map(|i| (i * 31 + l) as u8).collect();
+        let a = sha1(&m);
+        let b = sha1::Sha1::digest(&m);
+        if a[..] != b[..] {
+            bad.push(format!("sha1 cross-check at length {l}"));
+        }
+        if base64(&m) != base64::engine::general_purpose::STANDARD.encode(&m) {
+            bad.push(format!("base64 cross-check at length {l}"));
+        }
+    }
+    // builder <-> independent parser
+    for (i, l) in [0u64, 1, 125, 126, 65_535, 65_536].iter().enumerate() {
+        for mask in [None, Some(KEYS[i % 4])] {
+            let f = FrameSpec::new(OP_BIN, i % 2 == 0, mask, *l, i as u8);
+            let w = f.wire();
+            match ref_parse(&w) {
+                Some((fin, 0, OP_BIN, m, true, p, used)) if fin == f.fin && m == mask.is_some() && p == f.plain() && used == w.len() => {}
+                _ => bad.push(format!("frame builder/parser self-check at len {l}")),
+            }
+        }
+    }
+    if !bad.is_empty() {
+        eprintln!("MACHINERY: reference self-test failed: {bad:?}");
+        std::process::exit(2);
+    }
+}
+
+fn build_jobs(thorough: bool) -> Vec<(Job, bool)> {
+    let mut jobs: Vec<(Job, bool)> = vec![];
+    let full_limit = if thorough { 1600 } else { 700 };
+    // long streams first (longest jobs)
+    for (label, ts) in long_templates(thorough) {
+        for server in [true, false] {
+            let maxes: &[usize] = if thorough { &MAX_SIZES } else { &[126, 65_536] };
+            for &mx in maxes {
+                jobs.push((seg_bfs_job(label.clone(), ts.clone(), server, mx, full_limit, if thorough { 1024 } else { 0 }), false));
+                jobs.push((seg_twin_job(label.clone(), ts.clone(), server, mx, full_limit, 0, 0), false));
+            }
+        }
+    }
+    for c2s in [true, false] {
+        jobs.push((rt_job(c2s, None, thorough), true));
+        for mx in [0usize, 1, 125, 126, 65_535] {
+            jobs.push((rt_job(c2s, Some(mx), thorough), true));
+        }
+    }
+    let (pair_limit, triple_limit) = if thorough { (150, 40) } else { (48, 22) };
+    for (k, (label, ts)) in templates(thorough).into_iter().enumerate() {
+        for server in [true, false] {
+            for &mx in &MAX_SIZES {
+                jobs.push((seg_bfs_job(label.clone(), ts.clone(), server, mx, full_limit, 0), k < 3));
+                jobs.push((seg_twin_job(label.clone(), ts.clone(), server, mx, full_limit, pair_limit, triple_limit), k < 3));
+            }
+        }
+    }
+    for server in [true, false] {
+        for &mx in &MAX_SIZES {
+            jobs.push((strict_bfs_job(server, mx, thorough), true));
+            for first in 0..strict_seq_alphabet(server).len() {
+                jobs.push((strict_seq_job(server, mx, if thorough { 5 } else { 3 }, first), first < 2));
+            }
+        }
+    }
+    jobs.push((mask_job(thorough), false));
+    jobs.push((hs_job(thorough), true));
+    jobs
+}
+
+fn replay(path: &str) -> i32 {
+    let v = mc_core::report::read_replay(path);
+    let r = &v["replay"];
+    println!("replaying {} clause={} signature={}", path, v["clause"], v["signature"]);
+    let findings: Vec<Finding> = match r["kind"].as_str().unwrap_or("") {
+        "seg" => {
+            let spec: StreamSpec = serde_json::from_value(r["stream"].clone()).unwrap_or_else(|e| {
+                eprintln!("MACHINERY: bad replay file: {e}");
+                std::process::exit(2)
+            });
+            let sg: Vec<(usize, u8)> = r["seg"]
+                .as_array()
+                .map(|a| a.iter().map(|x| (x[0].as_u64().unwrap_or(0) as usize, x[1].as_u64().unwrap_or(0) as u8)).collect())
+                .unwrap_or_default();
+            let s = Stream::new(spec);
+            let sg: Vec<(usize, u8)> = if r["seg_every_byte_separately"].as_bool().unwrap_or(false) {
+                (1..=s.bytes.len()).map(|c| (c, 0)).collect()
+            } else {
+                sg
+            };
+            println!(
+                "  {} codec, max_size {}, stream of {} bytes: {}",
+                if s.spec.server { "server" } else { "client" },
+                s.spec.max_size,
+                s.bytes.len(),
+                mc_core::show_short(&s.bytes, 40)
+            );
+            for (i, (f, inf)) in s.spec.frames.iter().zip(s.infos.iter()).enumerate() {
+                println!(
+                    "  frame #{i} {} mask={:?} bytes[{}..{}] header ends at {} expected: {}",
+                    f.class(), f.mask, inf.start, inf.end, inf.hdr_end,
+                    match &inf.exp { Exp::Deliver(o) => format!("deliver {}", o.short()), e => format!("{e:?}").chars().take(90).collect() }
+                );
+            }
+            run_seg(&s, &sg, r["relocate"].as_bool().unwrap_or(false), sg.len() <= 200).0
+        }
+        "rt" => {
+            let msgs: Vec<MsgSpec> = serde_json::from_value(r["msgs"].clone()).unwrap_or_default();
+            rt::run_msgs(r["c2s"].as_bool().unwrap_or(true), r["dec_max"].as_u64().map(|x| x as usize), &msgs, true)
+        }
+        "mask-decode" => {
+            let key: [u8; 4] = serde_json::from_value(r["key"].clone()).unwrap_or([0; 4]);
+            maskx::mask_decode_case(r["len"].as_u64().unwrap_or(0) as usize, key, r["off"].as_u64().unwrap_or(0) as usize, r["lenform"].as_u64().unwrap_or(0) as u8, true).0
+        }
+        "mask-encode" => maskx::mask_encode_case(r["len"].as_u64().unwrap_or(0) as usize, r["off"].as_u64().unwrap_or(0) as usize, true).0,
+        "hs" => {
+            let c: hs::HsCase = serde_json::from_value(r["case"].clone()).unwrap_or_else(|e| {
+                eprintln!("MACHINERY: bad replay file: {e}");
+                std::process::exit(2)
+            });
+            hs::run_case(&c, true).0
+        }
+        k => {
+            eprintln!("MACHINERY: unknown replay kind {k:?}");
+            return 2;
+        }
+    };
+    if findings.is_empty() {
+        println!("replay: the case no longer fails");
+        return 0;
+    }
+    for f in &findings {
+        println!("STILL FAILS clause={} signature={}\n  {}", f.clause, f.signature, f.what);
+    }
+    1
+}
+
 fn main() {
-    eprintln!("MACHINERY: engine codecx is not built yet");
-    std::process::exit(2);
+    let args = mc_core::cli::parse();
+    if args.property != PROP {
+        eprintln!("MACHINERY: engine codecx serves C14 only");
+        std::process::exit(2);
+    }
+    let default_hook = std::panic::take_hook();
+    std::panic::set_hook(Box::new(move |info| {
+        if !QUIET.with(|q| q.get()) {
+            default_hook(info);
+        }
+    }));
+    self_test();
+    if let Some(p) = &args.replay {
+        std::process::exit(replay(p));
+    }
+    let thorough = args.tier == "thorough";
+    let t0 = Instant::now();
+    let wall = args.wall_s.unwrap_or(if thorough { 1500 } else { 55 });
+    let deadline = Some(t0 + Duration::from_secs(wall));
+    let mut jobs = build_jobs(thorough);
+    let seed: usize = std::env::var("VERIF_SEED").ok().and_then(|s| s.parse().ok()).unwrap_or(0);
+    if seed > 0 && !jobs.is_empty() {
+        let k = seed % jobs.len();
+        jobs.rotate_left(k);
+    }
+    if let Some(only) = std::env::var("CODECX_ONLY_IDX").ok().and_then(|s| s.parse::<usize>().ok()) {
+        jobs = jobs.into_iter().skip(only).take(1).collect();
+    }
+    let njobs = jobs.len();
+    let queue: Mutex<VecDeque<(usize, (Job, bool))>> = Mutex::new(jobs.into_iter().enumerate().collect());
+    let results: Mutex<Vec<(usize, JobOut)>> = Mutex::new(vec![]);
+    let nondet: Mutex<Vec<String>> = Mutex::new(vec![]);
+    std::thread::scope(|sc| {
+        for _ in 0..mc_core::cli::threads() {
+            sc.spawn(|| loop {
+                let Some((i, (job, recheck))) = queue.lock().unwrap().pop_front() else { break };
+                let tj = Instant::now();
+                let out = job(deadline);
+                if std::env::var("CODECX_TIMES").is_ok() && tj.elapsed().as_secs_f64() > 0.5 {
+                    eprintln!("job {i} {} took {:.2}s: {}", out.part, tj.elapsed().as_secs_f64(), out.sample.as_ref().map(|s| s.to_string().chars().take(160).collect::<String>()).unwrap_or_default());
+                }
+                // determinism: same job twice -> same counters, observations and findings. A run
+                // that already reports violations is not compared: wrong masking/length handling
+                // lets the encoder's random masking key leak into what is observed.
+                if recheck && !out.capped && out.viol.is_empty() {
+                    let again = job(deadline);
+                    if !again.capped && again.viol.is_empty() && again.digest() != out.digest() {
+                        nondet.lock().unwrap().push(format!("job {i} ({})", out.part));
+                    }
+                    if !again.viol.is_empty() {
+                        let extra = JobOut { part: out.part, viol: again.viol, exhaustive_cuts: true, ..Default::default() };
+                        results.lock().unwrap().push((i, extra));
+                    }
+                }
+                results.lock().unwrap().push((i, out));
+            });
+        }
+    });
+    let nondet = nondet.into_inner().unwrap();
+    if !nondet.is_empty() {
+        eprintln!("MACHINERY: nondeterministic results in {nondet:?}");
+        std::process::exit(2);
+    }
+    let mut results = results.into_inner().unwrap();
+    results.sort_by_key(|(i, _)| *i);
+
+    let mut rep = Reporter::new(PROP);
+    let mut parts: BTreeMap<&'static str, BTreeMap<&'static str, u64>> = BTreeMap::new();
+    let mut obs: HashSet<u64> = HashSet::new();
+    let mut notes: BTreeMap<String, u64> = BTreeMap::new();
+    let mut samples: Vec<Value> = vec![];
+    let mut sample_count: BTreeMap<&'static str, usize> = BTreeMap::new();
+    let (mut evals, mut states, mut transitions, mut impl_steps, mut decode_calls) = (0u64, 0u64, 0u64, 0u64, 0u64);
+    let mut capped = false;
+    let mut restricted_cut_jobs = 0u64;
+    let mut machinery_notes = vec![];
+    for (_, o) in results {
+        let p = parts.entry(o.part).or_default();
+        *p.entry("jobs").or_default() += 1;
+        *p.entry("cases").or_default() += o.cases;
+        *p.entry("states").or_default() += o.states;
+        *p.entry("transitions").or_default() += o.transitions;
+        *p.entry("executions_on_real_codec").or_default() += o.impl_steps;
+        *p.entry("decode_calls").or_default() += o.decode_calls;
+        *p.entry("distinct_nontrivial").or_default() += o.obs.len() as u64;
+        evals += o.cases;
+        states += o.states;
+        transitions += o.transitions;
+        impl_steps += o.impl_steps;
+        decode_calls += o.decode_calls;
+        capped |= o.capped;
+        if o.part.starts_with("seg") && !o.exhaustive_cuts {
+            restricted_cut_jobs += 1;
+        }
+        obs.extend(o.obs);
+        for n in o.notes {
+            if n.starts_with("MACHINERY") {
+                machinery_notes.push(n);
+            } else {
+                *notes.entry(n).or_default() += 1;
+            }
+        }
+        if let Some(s) = o.sample {
+            let c = sample_count.entry(o.part).or_default();
+            if *c < 3 {
+                samples.push(s);
+                *c += 1;
+            }
+        }
+        rep.add_all(o.viol);
+    }
+    if !machinery_notes.is_empty() {
+        eprintln!("{}", machinery_notes.join("\n"));
+        std::process::exit(2);
+    }
+    if Instant::now() > deadline.unwrap() {
+        capped = true;
+    }
+    let wall_s = t0.elapsed().as_secs_f64();
+    let mut ev = Evidence::new(PROP, &args.tier, "model_checking");
+    ev.set("evaluations", evals)
+        .set("distinct_nontrivial", obs.len() as u64)
+        .set("rule", "Cases are enumerated, never sampled: (seg-bfs) explicit-state BFS per generated frame stream × role × max_size over actions 'feed bytes up to cut c at buffer alignment a, then decode until None/Err' on a clone of the real ws::Codec, states merged on (codec Debug incl. continuation flag, leftover bytes, #bytes fed, #frames emitted, error) — the merged graph reaches every state any of the 2^(n-1) segmentations over the cut set can reach, and the oracle (frames emitted == reference decode of the prefix, leftover exact, error only where the reference rejects, refusal at header for oversize) is evaluated on every transition; (seg-unmerged) the same streams with one persistent BytesMut under the whole buffer, all-1-byte, every single cut, every pair (short streams) and every triple (very short) of cuts; (strict-bfs) frame alphabet × real codec to the fixpoint of the continuation flag against the reference 2-state machine, plus all frame sequences up to a depth un-merged; (roundtrip) BFS over message sequences encoder(role A) → independent wire parse → decoder(role B); (mask) lengths × keys × buffer offsets against byte-wise XOR; (handshake) full product of header shapes plus key strings of every length across SHA-1 block boundaries. distinct_nontrivial = number of distinct canonical observations (hash of part, configuration, position and outcome) restricted to non-trivial ones: seg-bfs transitions that leave or complete a partial frame or surface an error; per-stream final outcomes for the un-merged twin; every (state, frame, outcome) of the strictness machine; round trips other than Nop; masked payloads of length > 0; every handshake (input, outcome).")
+        .set("states", states)
+        .set("transitions", transitions)
+        .set("traces_validated_against_impl", impl_steps)
+        .set("decode_calls_on_real_codec", decode_calls)
+        .set("jobs", njobs as u64)
+        .set("parts", serde_json::to_value(&parts).unwrap())
+        .set("samples", Value::Array(samples))
+        .set("exhaustive", !capped)
+        .set("capped", capped)
+        .set("seg_jobs_with_restricted_cut_set", restricted_cut_jobs)
+        .set("statement_neutral_observations", serde_json::to_value(&notes).unwrap())
+        .set("violations_found", Value::Array(rep.summaries()));
+    ev.assume("Decoding stops at the first Err (the connection is failed); behaviour after an error is not explored.")
+        .assume("Interpretation: an over-long Close frame (payload > 125) counts as rejected if decode returns Err or the payload-less Close(None) (the codec documents 'morphing to protocol close frame'); any other delivery alarms.")
+        .assume("Interpretation: 'start inside a fragmented message' = a FIN=0 Text/Binary frame while a fragmented message is in progress (ProtocolError::ContinuationStarted). A complete (FIN=1) data frame inside a fragmented message, RSV bits and non-minimal length encodings are not listed in the statement: either outcome is accepted, but it must be segmentation-independent and, if delivered, content-exact.")
+        .assume("Interpretation: a legal frame whose payload equals max_size must be delivered; one announcing more must be refused as soon as its header is complete (clause maxsize-early-refusal).")
+        .assume("Close(Some(code, Some(\"\"))) and CloseCode::Other(n) for a registered n are not representable on the wire distinctly from Close(Some(code, None)) / the named variant and are excluded from the round trip; control messages are round-tripped only with payload <= 125 (the encoder does not refuse longer ones).")
+        .assume("The client encoder draws its masking key from rand::random; it cannot be set through the public API. All-key coverage comes from hand-built frames (4 keys everywhere; thorough: every value of every key byte).")
+        .assume("For streams longer than the every-offset limit the cut set is: every offset of each header region plus 4 payload bytes, payload offsets 5,7,64,125..128,4095,4096,65534,65535, the last 3 bytes of each frame (thorough: plus every 1024th payload byte); the all-1-byte segmentation is still run in full.")
+        .assume("Buffer alignment is over-approximated: before every feed the BFS may relocate the buffer to any address class mod 4 (server role), which covers whatever BytesMut::reserve does.")
+        .assume("Key strings: header shapes listed in DESIGN plus keys of length 0..=100 (thorough 0..=200, 8 variants); not all strings.");
+    ev.wall_s = wall_s;
+    ev.violations = rep.unknown_count() as i64;
+    ev.write();
+    println!(
+        "codecx C14 tier={} jobs={njobs} evaluations={evals} states={states} transitions={transitions} real-codec-executions={impl_steps} distinct_nontrivial={} capped={capped} wall={wall_s:.1}s",
+        args.tier,
+        obs.len()
+    );
+    for (p, m) in &parts {
+        println!("  {p}: {m:?}");
+    }
+    for (n, c) in &notes {
+        println!("  note ({c}x): {n}");
+    }
+    let code = rep.finish();
+    if code == 0 {
+        println!("C14: no unknown violation ({} known finding(s))", rep.known_count());
+    }
+    std::process::exit(code);
 }
